@@ -1183,6 +1183,9 @@ class Stack(list):
     def op_checksig(self, message, _=None):
         public_key = self.pop()
         signature = self.pop()
+        if signature == b'':
+            self.append(b'')
+            return True
         signature = Signature.parse_bytes(signature, public_key=public_key)
         if signature.verify(message, public_key):
             self.append(b'\1')
